@@ -223,7 +223,7 @@ impl<'a> Visitor for Enumerate<'a> {
             }
         });
         // predicates decided by the real part, on every type
-        let vals = [f64::NEG_INFINITY, -2.0, -0.0, 0.0, 1.0, 2.0, f64::INFINITY, f64::NAN, 1.0 + 2.0 * F::U];
+        let vals = [f64::NEG_INFINITY, -2.0, -0.0, 0.0, 1.0, 2.0, f64::INFINITY, f64::NAN, 1.0 + 2.0 * F::U, 1.0 - F::U, -1.0, F::TINY, -F::TINY, 0.5];
         for &x in &vals {
             for p in assignments::<F>(l, x, 0) {
                 let v = D::build(d, &p);
